@@ -59,7 +59,9 @@ func InverseHint(mod *big.Int, inputs []*big.Int, outputs []*big.Int) error {
 	}
 	nbBits := uint(inputs[0].Uint64())
 	nbLimbs := int(inputs[1].Int64())
-	if len(inputs[2:]) < 2*nbLimbs {
+	// the modulus is given on nbLimbs limbs; the value may be on fewer or more
+	// limbs (e.g. a small constant or an unreduced element)
+	if len(inputs[2:]) < nbLimbs {
 		return errors.New("inputs missing")
 	}
 	if len(outputs) != nbLimbs {
